@@ -11,8 +11,13 @@
     Reading of the scalars: K is any commutative *-ring with i; u is any element with
     u u^* = 1.  For K = C and an angle theta take u = exp(i theta / 2^(n-1)) (c-phase method)
     resp. u = exp(i theta) (auxiliary method); a gate angle c*theta with rational c then
-    has the entries u^(+-c 2^(n-1)/2).  "for any angle" = "for every such u". *)
+    has the entries u^(+-c 2^(n-1)/2).  "for any angle" = "for every such u".
+    The ..._any_phase_function theorems state the same without u: ph q stands for exp(i q theta),
+    any *-homomorphism (Q,+) -> unit-modulus elements of K ([character]); the ..._complex theorems
+    instantiate them at K = C (Coquelicot) with ph q = (cos (q theta), sin (q theta)) for every real
+    theta (this is where the standard library's real-number axioms appear). *)
 From Qib Require Import Qubitization.EvtProofs Base.Inst.
+From Qib Require Qubitization.QubitReal.   (* complex numbers; names used qualified *)
 From Run Require Import GenQubitization.
 Local Open Scope Z_scope.
 
@@ -56,6 +61,30 @@ Theorem C19_cphase_matrix_is_phase_shift :
 Proof. intros K L u Hu n Hn. rewrite (cphase_circuit_ok _ n gen_cphase_ok Hn). apply cphase_matrix; assumption. Qed.
 Print Assumptions C19_cphase_matrix_is_phase_shift.
 
+(** 2a. The same for ANY phase function ph (ph q = exp(i q theta)): Rz(c theta) has the entries
+    ph(-c/2), ph(c/2) (half angles), PhaseFactorGate(c theta) is ph(c), a controlled gate acts
+    only where its control bits match; the product of these gate matrices is
+    exp(i theta (2|0..0><0..0| - 1)) = diag(ph 1, conj (ph 1), ..., conj (ph 1)). *)
+Theorem C19_cphase_matrix_is_phase_shift_any_phase_function :
+  forall (K : Scalar) (L : ScalarLaws K) (ph : Q -> K), character ph ->
+  forall n : nat, (1 <= n)%nat ->
+    meq n (circuit_mx n ph (cphase_circuit gen_cphase n)) (shift_spec (ph 1%Q)).
+Proof. intros K L ph H n Hn. rewrite (cphase_circuit_ok _ n gen_cphase_ok Hn). apply cphase_matrix_char; assumption. Qed.
+Print Assumptions C19_cphase_matrix_is_phase_shift_any_phase_function.
+
+(** 2b. Over the complex numbers, for every real angle theta. *)
+Theorem C19_cphase_matrix_is_phase_shift_complex :
+  forall (theta : Rdefinitions.R) (n : nat), (1 <= n)%nat ->
+    meq (K:=QubitReal.CK) n (circuit_mx n (QubitReal.expq theta) (cphase_circuit gen_cphase n))
+        (shift_spec (QubitReal.expi theta)).
+Proof.
+  intros theta n Hn. rewrite <- QubitReal.expq_1.
+  apply (C19_cphase_matrix_is_phase_shift_any_phase_function QubitReal.CK QubitReal.CK_laws).
+  - apply QubitReal.expq_character.
+  - exact Hn.
+Qed.
+Print Assumptions C19_cphase_matrix_is_phase_shift_complex.
+
 (* ------------------------------------------------------------------ phase shift, auxiliary method *)
 (** 3. MCX Rz(2 theta) MCX on (auxiliary = wire 0, encoding register = wires 1..n):
     |0,b> is mapped to phase * |0,b> with the same phases; the auxiliary qubit returns to |0>. *)
@@ -74,6 +103,25 @@ Theorem C19_aux_matrix_block_is_phase_shift :
     blk0 n (circuit_mx (Datatypes.S n) (upow_q 0 u) (aux_circuit gen_aux n)) (shift_spec u).
 Proof. intros K L u Hu n. rewrite (aux_circuit_ok _ n gen_aux_ok). apply aux_blk0; assumption. Qed.
 Print Assumptions C19_aux_matrix_block_is_phase_shift.
+
+(** 4a / 4b. The same for any phase function, and over C for every real angle. *)
+Theorem C19_aux_matrix_block_is_phase_shift_any_phase_function :
+  forall (K : Scalar) (L : ScalarLaws K) (ph : Q -> K), character ph ->
+  forall n : nat,
+    blk0 n (circuit_mx (Datatypes.S n) ph (aux_circuit gen_aux n)) (shift_spec (ph 1%Q)).
+Proof. intros K L ph H n. rewrite (aux_circuit_ok _ n gen_aux_ok). apply aux_blk0_char; assumption. Qed.
+Print Assumptions C19_aux_matrix_block_is_phase_shift_any_phase_function.
+
+Theorem C19_aux_matrix_block_is_phase_shift_complex :
+  forall (theta : Rdefinitions.R) (n : nat),
+    blk0 (K:=QubitReal.CK) n (circuit_mx (Datatypes.S n) (QubitReal.expq theta) (aux_circuit gen_aux n))
+         (shift_spec (QubitReal.expi theta)).
+Proof.
+  intros theta n. rewrite <- QubitReal.expq_1.
+  apply (C19_aux_matrix_block_is_phase_shift_any_phase_function QubitReal.CK QubitReal.CK_laws).
+  apply QubitReal.expq_character.
+Qed.
+Print Assumptions C19_aux_matrix_block_is_phase_shift_complex.
 
 (* ------------------------------------------------------------------ eigenvalue transformation *)
 (** 0. (does not depend on the regenerated definitions) The loop bound before the repair, range(start, dim): every odd length >= 3 loses its
@@ -185,6 +233,76 @@ Proof.
   rewrite C19_evt_circuit_word_is_alternating by assumption. apply word_mx_meq; assumption.
 Qed.
 Print Assumptions C19_evt_circuit_cphase_is_alternating_product.
+
+(** 10. CLOSED FORM of clause "its circuit has that same matrix on the auxiliary-|0> block"
+    (no hypotheses about the gate groups).  n encoding qubits, w system wires, U / Ui ANY
+    matrices on the n + w wires of the block encoding (hence all three encoding methods and any
+    encoded Hamiltonian), one phase function per angle.  Auxiliary method, wire 0 = auxiliary
+    qubit: the circuit assembled by as_circuit - every phase-shift group is the gate product
+    MCX Rz MCX read from the source (x) identity on the system, every block-encoding gate is
+    identity on the auxiliary qubit (x) U^{+-} - has on the auxiliary-|0> block the matrix
+    as_matrix multiplies together (defining phase shifts kron identity, U, Ui along the word
+    of as_matrix), nothing leaks to auxiliary |1>, and that matrix is the alternating product. *)
+Theorem C19_evt_circuit_auxiliary_closed_form :
+  forall (K : Scalar) (L : ScalarLaws K) (phs : Z -> Q -> K), (forall k, character (phs k)) ->
+  forall (n w : nat) (U Ui : BMx K) (len : Z), 1 <= len ->
+    blk0 (n + w)
+      (word_mx (Datatypes.S (n + w))
+         (fun k => kron (Datatypes.S n) (circuit_mx (Datatypes.S n) (phs k) (aux_circuit gen_aux n)) mid)
+         (kron 1 mid U) (kron 1 mid Ui) (gates_word (evt_circ_gates gen_evt_circ len)))
+      (word_mx (n + w) (fun k => kron n (shift_spec (phs k 1%Q)) mid) U Ui (evt_mat_word gen_evt_mat len))
+    /\ evt_mat_word gen_evt_mat len = alt_word len.
+Proof.
+  intros K L phs H n w U Ui len Hlen.
+  rewrite C19_evt_circuit_word_is_alternating, C19_evt_matrix_word_is_alternating by assumption.
+  split; [|reflexivity]. rewrite (aux_circuit_ok _ n gen_aux_ok). apply evt_aux_circuit_blk0. exact H.
+Qed.
+Print Assumptions C19_evt_circuit_auxiliary_closed_form.
+
+(** 11. c-phase method (no auxiliary qubit): circuit matrix = as_matrix product outright. *)
+Theorem C19_evt_circuit_cphase_closed_form :
+  forall (K : Scalar) (L : ScalarLaws K) (phs : Z -> Q -> K), (forall k, character (phs k)) ->
+  forall (n w : nat) (U Ui : BMx K) (len : Z), (1 <= n)%nat -> 1 <= len ->
+    meq (n + w)
+      (word_mx (n + w) (fun k => kron n (circuit_mx n (phs k) (cphase_circuit gen_cphase n)) mid)
+               U Ui (gates_word (evt_circ_gates gen_evt_circ len)))
+      (word_mx (n + w) (fun k => kron n (shift_spec (phs k 1%Q)) mid) U Ui (evt_mat_word gen_evt_mat len))
+    /\ evt_mat_word gen_evt_mat len = alt_word len.
+Proof.
+  intros K L phs H n w U Ui len Hn Hlen.
+  rewrite C19_evt_circuit_word_is_alternating, C19_evt_matrix_word_is_alternating by assumption.
+  split; [|reflexivity]. rewrite (cphase_circuit_ok _ n gen_cphase_ok Hn). apply evt_cphase_circuit_meq; assumption.
+Qed.
+Print Assumptions C19_evt_circuit_cphase_closed_form.
+
+(** 12. Both over C: any real angle sequence th. *)
+Theorem C19_evt_circuit_closed_form_complex :
+  forall (th : Z -> Rdefinitions.R) (n w : nat) (U Ui : BMx QubitReal.CK) (len : Z), 1 <= len ->
+    blk0 (K:=QubitReal.CK) (n + w)
+      (word_mx (Datatypes.S (n + w))
+         (fun k => kron (Datatypes.S n) (circuit_mx (Datatypes.S n) (QubitReal.expq (th k)) (aux_circuit gen_aux n)) mid)
+         (kron 1 mid U) (kron 1 mid Ui) (gates_word (evt_circ_gates gen_evt_circ len)))
+      (word_mx (n + w) (fun k => kron n (shift_spec (QubitReal.expi (th k))) mid) U Ui (alt_word len))
+    /\ ((1 <= n)%nat ->
+        meq (K:=QubitReal.CK) (n + w)
+          (word_mx (n + w) (fun k => kron n (circuit_mx n (QubitReal.expq (th k)) (cphase_circuit gen_cphase n)) mid)
+                   U Ui (gates_word (evt_circ_gates gen_evt_circ len)))
+          (word_mx (n + w) (fun k => kron n (shift_spec (QubitReal.expi (th k))) mid) U Ui (alt_word len))).
+Proof.
+  intros th n w U Ui len Hlen.
+  assert (Hc : forall k, character (K:=QubitReal.CK) ((fun k => QubitReal.expq (th k)) k))
+    by (intros k; apply QubitReal.expq_character).
+  assert (E : (fun k => kron n (shift_spec (QubitReal.expi (th k))) (mid (K:=QubitReal.CK)))
+            = (fun k => kron n (shift_spec (QubitReal.expq (th k) 1%Q)) mid)).
+  { apply FunctionalExtensionality.functional_extensionality. intros k. rewrite QubitReal.expq_1. reflexivity. }
+  rewrite E. split.
+  - destruct (C19_evt_circuit_auxiliary_closed_form QubitReal.CK QubitReal.CK_laws _ Hc n w U Ui len Hlen) as [H1 H2].
+    rewrite H2 in H1. exact H1.
+  - intros Hn.
+    destruct (C19_evt_circuit_cphase_closed_form QubitReal.CK QubitReal.CK_laws _ Hc n w U Ui len Hn Hlen) as [H1 H2].
+    rewrite H2 in H1. exact H1.
+Qed.
+Print Assumptions C19_evt_circuit_closed_form_complex.
 
 (** non-vacuity: a unit-modulus u that is not a root of unity of small order, 3 encoding
     qubits, over the Gaussian rationals; both methods; a 5-angle word *)
